@@ -10,7 +10,7 @@ from harness.worker import Stream
 
 OBLIGATIONS = [
     "PgmVerif.C18_same_equiv", "PgmVerif.C18_closure_extensive", "PgmVerif.C18_closure_closed",
-    "PgmVerif.C18_ci_product_form", "PgmVerif.C18_iequiv_refl_symm", "PgmVerif.C18_closure_sound",
+    "PgmVerif.C18_ci_product_form", "PgmVerif.C18_iequiv_refl_symm", "PgmVerif.C18_iequiv_trans", "PgmVerif.C18_closure_sound",
     "PgmVerif.C18_closure_semantically_sound", "PgmVerif.CI_decomposition", "PgmVerif.CI_weak_union", "PgmVerif.CI_contraction",
     "PgmVerif.C18_ci_scale_invariant", "PgmVerif.C18_ci_unnormalised",
 ]
